@@ -222,7 +222,10 @@ func NTTSparseAndMontgomery(r *ring.Ring, metadata *MetaData, pol ring.Poly) {
 			if metadata.IsNTT {
 				// NTT in dimension n but with roots of N
 				// This is a small hack to perform at reduced cost an NTT of dimension N on a vector in Y = X^{N/n}, i.e. sparse polynomials.
-				NTT(coeffs[:n], coeffs[:n], n, s.Modulus, s.MRedConstant, s.BRedConstant, s.RootsForward)
+				// (the NTT of a constant polynomial, i.e. n = 1, is the constant itself)
+				if n > 1 {
+					NTT(coeffs[:n], coeffs[:n], n, s.Modulus, s.MRedConstant, s.BRedConstant, s.RootsForward)
+				}
 
 				// Maps NTT in dimension n to NTT in dimension N
 				for j := n - 1; j >= 0; j-- {
@@ -234,8 +237,8 @@ func NTTSparseAndMontgomery(r *ring.Ring, metadata *MetaData, pol ring.Poly) {
 			} else {
 				for j := n - 1; j >= 0; j-- {
 					coeffs[j*gap] = coeffs[j]
-					for j := 1; j < gap; j++ {
-						coeffs[j*gap-j] = 0
+					for w := 1; w < gap; w++ {
+						coeffs[j*gap+w] = 0
 					}
 				}
 			}
